@@ -116,6 +116,24 @@ func (p *parser) parseInfix(left ast.Expr, rbp oper.BP) ast.Expr {
 	return p.infixNCheck(left)
 }
 
+// exprRight parses the right operand of a right-associative operator of power
+// rbp: operators of the same power bind into the operand too. (Using
+// expr(rbp-1) instead is only right for integral powers >= 1.)
+func (p *parser) exprRight(rbp oper.BP) ast.Expr {
+	t := p.eat()
+	pre := p.mustPrefix(t)
+	left := pre.nud(p, pre.BP, t)
+	for p.peek().Kind != token.EOF && p.infixLbp(p.peek()) >= rbp {
+		if _, ok := p.infixs[p.peek().Kind]; !ok {
+			break
+		}
+		t := p.eat()
+		inf := p.mustInfix(t)
+		left = inf.led(p, inf.BP, left, t)
+	}
+	return p.infixNCheck(left)
+}
+
 func (p *parser) infixNCheck(expr ast.Expr) ast.Expr {
 	if bin, ok := expr.(*ast.BinaryExpr); ok {
 		opName := bin.Name
